@@ -156,4 +156,223 @@ theorem C10_leaf_extHdr_pack (h : S_extHdr) (buf : List UInt8) (p : Nat) (hL : b
     · exact splice_length buf _ p (by rw [hw]; exact h4)
   · rw [if_pos (by omega), if_neg h4]
 
+/-! ### `Cookie.pack`, `CookiePlaceholder.pack`, `UniqueIdentifier.pack`: one shape -/
+
+/-- the common body of the three generated value encoders: type `t`, value `v` -/
+def packCore (t : UInt16) (v buf : List UInt8) (pos : Int64) : Option (List UInt8 × (Int64 × Bool)) :=
+  let newlen : Int64 := (((Go.len v) + (3 : Int64)) &&& (-4 : Int64))
+  (Go.makeBytesN? (newlen - (Go.len v))).bind fun padding =>
+  (nts_extHdr_pack { Type' := t, Length := ((4 : UInt16) + ((newlen).toUInt64.toUInt16)) } buf pos).bind fun (buf, pos) =>
+  (Go.copyAt? buf pos v).bind fun (buf, n) =>
+  let pos : Int64 := (pos + n)
+  (Go.copyAt? buf pos padding).bind fun (buf, n) =>
+  some ((buf, ((pos + n), false)))
+
+/-- definitional: re-checked against the regenerated definitions on every run -/
+theorem cookie_pack_core (c : S_Cookie) (buf : List UInt8) (pos : Int64) :
+    nts_Cookie_pack c buf pos = packCore 516 c.Cookie buf pos := rfl
+theorem placeholder_pack_core (c : S_CookiePlaceholder) (buf : List UInt8) (pos : Int64) :
+    nts_CookiePlaceholder_pack c buf pos = packCore 772 c.Cookie buf pos := rfl
+theorem uid_pack_core (u : S_UniqueIdentifier) (buf : List UInt8) (pos : Int64) :
+    nts_UniqueIdentifier_pack u buf pos =
+      if (decide ((Go.len u.ID) < (32 : Int64))) then some ((buf, ((0 : Int64), true))) else packCore 260 u.ID buf pos := rfl
+
+theorem and_mask (m : Nat) (h : m < 2 ^ 64) : m &&& (2 ^ 64 - 4) = m / 4 * 4 := by
+  apply Nat.eq_of_testBit_eq
+  intro i
+  have hM : (2 ^ 64 - 4 : Nat) = 2 ^ 2 * (2 ^ 62 - 1) := by decide
+  have h4 : m / 4 * 4 = 2 ^ 2 * (m / 2 ^ 2) := by omega
+  rw [Nat.testBit_and, hM, h4, Nat.testBit_two_pow_mul, Nat.testBit_two_pow_mul, Nat.testBit_two_pow_sub_one, Nat.testBit_div_two_pow]
+  by_cases h2 : 2 ≤ i
+  · simp only [h2, decide_true, Bool.true_and]
+    have e : i - 2 + 2 = i := by omega
+    rw [e]
+    by_cases h62 : i - 2 < 62
+    · simp [h62]
+    · simp only [h62, decide_false, Bool.and_false]
+      have : m < 2 ^ i := Nat.lt_of_lt_of_le h (Nat.pow_le_pow_right (by decide) (by omega))
+      rw [Nat.testBit_lt_two_pow this]
+  · simp [h2]
+
+theorem k3 : (3 : Int64).toInt = 3 := by decide
+
+/-- `(n + 3) & ^3` on `int`: the next multiple of 4 (the model's `pad4`) -/
+theorem and_neg4 (n : Nat) (h : n < 4611686018427387904) :
+    ((Int64.ofNat n + 3) &&& (-4 : Int64)).toBitVec.toNat = pad4 n ∧
+    ((Int64.ofNat n + 3) &&& (-4 : Int64)).toInt = (pad4 n : Nat) := by
+  have hn := ofNat_toInt n h
+  have hy : (Int64.ofNat n + 3).toInt = ((n + 3 : Nat) : Int) := by
+    rw [toInt_add_of_fits _ _ (by rw [hn, k3]; omega) (by rw [hn, k3]; omega), hn, k3]; omega
+  have hyn : (Int64.ofNat n + 3).toBitVec.toNat = n + 3 := by
+    have h1 : (Int64.ofNat n + 3).toBitVec.toInt = ((n + 3 : Nat) : Int) := hy
+    rw [BitVec.toInt_eq_toNat_cond] at h1
+    have hlt := (Int64.ofNat n + 3).toBitVec.isLt
+    split at h1 <;> omega
+  have hm4 : (-4 : Int64).toBitVec.toNat = 2 ^ 64 - 4 := by decide
+  have hb : ((Int64.ofNat n + 3) &&& (-4 : Int64)).toBitVec.toNat = (n + 3) / 4 * 4 := by
+    rw [Int64.toBitVec_and, BitVec.toNat_and, hyn, hm4, and_mask _ (by omega)]
+  refine ⟨hb, ?_⟩
+  have h2 : ((Int64.ofNat n + 3) &&& (-4 : Int64)).toInt = ((Int64.ofNat n + 3) &&& (-4 : Int64)).toBitVec.toInt := rfl
+  rw [h2, BitVec.toInt_eq_toNat_cond, hb, if_pos (by omega)]
+  rfl
+
+theorem bytesN_append (x y : List UInt8) : bytesN (x ++ y) = bytesN x ++ bytesN y := by simp [bytesN]
+theorem bytesN_take' (x : List UInt8) (k : Nat) : bytesN (x.take k) = (bytesN x).take k := by simp [bytesN, List.map_take]
+theorem bytesN_zeros (m : Nat) : bytesN (List.replicate m 0) = zeros m := by simp [bytesN, zeros]
+
+/-- what the three splice facts give for a write of `W` at `p` -/
+theorem splice_result (buf W : List UInt8) (p : Nat) (h : p + W.length ≤ buf.length) :
+    bytesN ((splice buf p W).take (p + W.length)) = bytesN (buf.take p) ++ bytesN W ∧
+    (splice buf p W).drop (p + W.length) = buf.drop (p + W.length) ∧ (splice buf p W).length = buf.length := by
+  refine ⟨?_, splice_drop buf W p (by omega), splice_length buf W p h⟩
+  rw [splice_take buf W p (by omega), bytesN_append]
+
+/-- **the common body = the model's `packValue`** with `cap = len(buf)`, `out = buf[:pos]` -/
+theorem packCore_spec (t : UInt16) (v buf : List UInt8) (p : Nat) (hL : buf.length < 4611686018427387904)
+    (hv : v.length < 4611686018427387904) (hp : p ≤ buf.length) :
+    match packValue buf.length t.toNat (bytesN (buf.take p)) (bytesN v) with
+    | .ok out' => ∃ buf', packCore t v buf (Int64.ofNat p) = some (buf', Int64.ofNat out'.length, false) ∧
+        bytesN (buf'.take out'.length) = out' ∧ buf'.drop out'.length = buf.drop out'.length ∧ buf'.length = buf.length
+    | .panic _ => packCore t v buf (Int64.ofNat p) = none
+    | _ => False := by
+  obtain ⟨hnb, hni⟩ := and_neg4 v.length hv
+  have hlv : Go.len v = Int64.ofNat v.length := rfl
+  have hlvi := ofNat_toInt v.length hv
+  have hpad : pad4 v.length = (v.length + 3) / 4 * 4 := rfl
+  unfold packCore
+  simp only [hlv]
+  generalize hNL : ((Int64.ofNat v.length + 3) &&& (-4 : Int64)) = NL at hnb hni
+  -- the padding
+  have hsub : (NL - Int64.ofNat v.length).toInt = ((pad4 v.length - v.length : Nat) : Int) := by
+    rw [toInt_sub_of_fits _ _ (by rw [hni, hlvi, hpad]; omega) (by rw [hni, hlvi, hpad]; omega), hni, hlvi, hpad]; omega
+  have hmk : Go.makeBytesN? (NL - Int64.ofNat v.length) = some (List.replicate (pad4 v.length - v.length) 0) := by
+    unfold Go.makeBytesN?
+    rw [if_pos (by rw [hsub]; omega), hsub]; rfl
+  -- the length field
+  have hL16 : ((4 : UInt16) + NL.toUInt64.toUInt16).toNat = (4 + pad4 v.length % 65536) % 65536 := by
+    have h4u : (4 : UInt16).toNat = 4 := rfl
+    have : NL.toUInt64.toUInt16.toNat = pad4 v.length % 65536 := by
+      rw [UInt64.toNat_toUInt16]
+      have : NL.toUInt64.toNat = NL.toBitVec.toNat := rfl
+      rw [this, hnb]
+    rw [UInt16.toNat_add, h4u, this]
+  simp only [hmk, Option.bind_some]
+  rw [hdr_pack_spec _ buf p hL hp]
+  unfold packValue putHdr
+  have hol : (bytesN (buf.take p)).length = p := by rw [bytesN_length, List.length_take]; omega
+  simp only [bytesN_length, hol]
+  by_cases h4 : p + 4 ≤ buf.length
+  · rw [if_pos h4, if_neg (by omega)]
+    simp only [Option.bind_some]
+    generalize hH : hdrBytes t ((4 : UInt16) + NL.toUInt64.toUInt16) = H
+    have hHl : H.length = 4 := by rw [← hH]; rfl
+    have hHb : bytesN H = Nts.be16 t.toNat ++ Nts.be16 ((4 + pad4 v.length % 65536) % 65536) := by
+      rw [← hH, hdrBytes_be, hL16]
+    have hs1 := splice_length buf H p (by omega)
+    rw [copyAt_spec _ v (p + 4) (by rw [hs1]; exact hL) (by rw [hs1]; exact h4)]
+    simp only [Option.bind_some, hs1]
+    generalize hW1 : v.take (buf.length - (p + 4)) = W1
+    have hW1l : W1.length ≤ buf.length - (p + 4) := by rw [← hW1, List.length_take]; omega
+    have hss := splice_splice buf H W1 p (by omega)
+    rw [hHl] at hss
+    rw [hss]
+    have hs2 := splice_length buf (H ++ W1) p (by rw [List.length_append]; omega)
+    have hpos2 : Int64.ofNat (p + 4) + Int64.ofNat W1.length = Int64.ofNat (p + 4 + W1.length) :=
+      ofNat_add (p + 4) W1.length _ (ofNat_toInt _ (by omega)) (by omega)
+    rw [hpos2, copyAt_spec _ _ (p + 4 + W1.length) (by rw [hs2]; exact hL) (by rw [hs2]; omega)]
+    simp only [Option.bind_some, hs2]
+    generalize hW2 : (List.replicate (pad4 v.length - v.length) (0 : UInt8)).take (buf.length - (p + 4 + W1.length)) = W2
+    have hW2l : W2.length ≤ buf.length - (p + 4 + W1.length) := by rw [← hW2, List.length_take]; omega
+    have hss2 := splice_splice buf (H ++ W1) W2 p (by rw [List.length_append]; omega)
+    rw [List.length_append, hHl, ← Nat.add_assoc] at hss2
+    rw [hss2]
+    have hpos3 : Int64.ofNat (p + 4 + W1.length) + Int64.ofNat W2.length = Int64.ofNat (p + 4 + W1.length + W2.length) :=
+      ofNat_add _ W2.length _ (ofNat_toInt _ (by omega)) (by omega)
+    rw [hpos3]
+    -- the model's output
+    have hout : (pure (copyTrunc buf.length (copyTrunc buf.length
+          (bytesN (buf.take p) ++ Nts.be16 t.toNat ++ Nts.be16 ((4 + pad4 v.length % 65536) % 65536)) (bytesN v))
+          (zeros (pad4 v.length - v.length))) : Res Bytes) = .ok (bytesN (buf.take p) ++ bytesN (H ++ W1 ++ W2)) := by
+      show Res.ok _ = _
+      congr 1
+      unfold copyTrunc
+      simp only [List.length_append, hol, bytesN_append, hHb, ← hW1, ← hW2, bytesN_take', bytesN_zeros, bytesN_length,
+        List.length_take, Nts.be16, List.length_cons, List.length_nil, List.append_assoc]
+      congr 4
+      all_goals (try congr 1)
+      all_goals omega
+    rw [show ∀ (X : Bytes) (f : Bytes → Res Bytes), ((Res.ok X : Res Bytes) >>= f) = f X from fun _ _ => rfl, hout]
+    have hWl : (H ++ W1 ++ W2).length = 4 + W1.length + W2.length := by
+      simp only [List.length_append, hHl]
+    have hlen : (bytesN (buf.take p) ++ bytesN (H ++ W1 ++ W2)).length = p + (H ++ W1 ++ W2).length := by
+      rw [List.length_append, hol, bytesN_length]
+    obtain ⟨r1, r2, r3⟩ := splice_result buf (H ++ W1 ++ W2) p (by rw [hWl]; omega)
+    refine ⟨splice buf p (H ++ W1 ++ W2), ?_, ?_, ?_, r3⟩
+    · have e : p + (4 + W1.length + W2.length) = p + 4 + W1.length + W2.length := by omega
+      rw [hlen, hWl, e]
+    · rw [hlen]; exact r1
+    · rw [hlen]; exact r2
+  · rw [if_neg h4, if_pos (by omega)]
+    rfl
+
+/-- **`Cookie.pack(buf, pos)` = `packValue cap extCookie out cookie`** (`cap = len(buf)`, `out = buf[:pos]`) -/
+theorem C10_leaf_Cookie_pack (c : S_Cookie) (buf : List UInt8) (p : Nat) (hL : buf.length < 4611686018427387904)
+    (hv : c.Cookie.length < 4611686018427387904) (hp : p ≤ buf.length) :
+    match packValue buf.length extCookie (bytesN (buf.take p)) (bytesN c.Cookie) with
+    | .ok out' => ∃ buf', nts_Cookie_pack c buf (Int64.ofNat p) = some (buf', Int64.ofNat out'.length, false) ∧
+        bytesN (buf'.take out'.length) = out' ∧ buf'.drop out'.length = buf.drop out'.length ∧ buf'.length = buf.length
+    | .panic _ => nts_Cookie_pack c buf (Int64.ofNat p) = none
+    | _ => False := by
+  rw [cookie_pack_core]
+  exact packCore_spec 516 c.Cookie buf p hL hv hp
+
+/-- **`CookiePlaceholder.pack`** writes the placeholder type (the F5 fix: `phType true`) -/
+theorem C10_leaf_CookiePlaceholder_pack (c : S_CookiePlaceholder) (buf : List UInt8) (p : Nat)
+    (hL : buf.length < 4611686018427387904) (hv : c.Cookie.length < 4611686018427387904) (hp : p ≤ buf.length) :
+    match packValue buf.length (phType true) (bytesN (buf.take p)) (bytesN c.Cookie) with
+    | .ok out' => ∃ buf', nts_CookiePlaceholder_pack c buf (Int64.ofNat p) = some (buf', Int64.ofNat out'.length, false) ∧
+        bytesN (buf'.take out'.length) = out' ∧ buf'.drop out'.length = buf.drop out'.length ∧ buf'.length = buf.length
+    | .panic _ => nts_CookiePlaceholder_pack c buf (Int64.ofNat p) = none
+    | _ => False := by
+  rw [placeholder_pack_core]
+  exact packCore_spec 772 c.Cookie buf p hL hv hp
+
+theorem k32 : (32 : Int64).toInt = 32 := by decide
+
+/-- **`UniqueIdentifier.pack` = `packUid`**: an identifier shorter than 32 bytes is refused with
+    `errShortUniqueID`, nothing written -/
+theorem C10_leaf_UniqueIdentifier_pack (u : S_UniqueIdentifier) (buf : List UInt8) (p : Nat)
+    (hL : buf.length < 4611686018427387904) (hv : u.ID.length < 4611686018427387904) (hp : p ≤ buf.length) :
+    match packUid buf.length (bytesN (buf.take p)) (bytesN u.ID) with
+    | .ok out' => ∃ buf', nts_UniqueIdentifier_pack u buf (Int64.ofNat p) = some (buf', Int64.ofNat out'.length, false) ∧
+        bytesN (buf'.take out'.length) = out' ∧ buf'.drop out'.length = buf.drop out'.length ∧ buf'.length = buf.length
+    | .err _ => nts_UniqueIdentifier_pack u buf (Int64.ofNat p) = some (buf, 0, true)
+    | .panic _ => nts_UniqueIdentifier_pack u buf (Int64.ofNat p) = none
+    | .hang => False := by
+  rw [uid_pack_core]
+  unfold packUid
+  rw [bytesN_length]
+  have hlt : (Go.len u.ID < (32 : Int64)) ↔ u.ID.length < 32 := by
+    rw [Int64.lt_iff_toInt_lt, len_toInt _ hv, k32]; omega
+  by_cases h : u.ID.length < 32
+  · rw [if_pos h, if_pos (by simpa using hlt.mpr h)]
+  · rw [if_neg h, if_neg (by simpa using fun x => h (hlt.mp x))]
+    have := packCore_spec 260 u.ID buf p hL hv hp
+    have e : (260 : UInt16).toNat = extUniqueIdentifier := rfl
+    rw [e] at this
+    cases hm : packValue buf.length extUniqueIdentifier (bytesN (buf.take p)) (bytesN u.ID) with
+    | ok o => rw [hm] at this; exact this
+    | panic m => rw [hm] at this; exact this
+    | err x => rw [hm] at this; exact this.elim
+    | hang => rw [hm] at this; exact this.elim
+
+/-- non-vacuity: a 5-byte cookie at position 2 of a 20-byte buffer — header, value, three padding
+    bytes; and the truncation at the end of a 12-byte buffer -/
+example : nts_Cookie_pack { extHdr := { Type' := 0, Length := 0 }, Cookie := [1, 2, 3, 4, 5] } (List.replicate 20 9) 2 =
+    some ([9, 9, 2, 4, 0, 12, 1, 2, 3, 4, 5, 0, 0, 0, 9, 9, 9, 9, 9, 9], 14, false) := by decide +kernel
+example : nts_Cookie_pack { extHdr := { Type' := 0, Length := 0 }, Cookie := [1, 2, 3, 4, 5] } (List.replicate 9 9) 2 =
+    some ([9, 9, 2, 4, 0, 12, 1, 2, 3], 9, false) := by decide +kernel
+example : nts_Cookie_pack { extHdr := { Type' := 0, Length := 0 }, Cookie := [1] } (List.replicate 5 9) 2 = none := by
+  decide +kernel
+
 end ScionTime.LeafTieC14NtsPack
